@@ -710,6 +710,9 @@ def _resolve(module, caller_q, call, helpers):
             seen.append(c)
             h = helpers.get(c + "." + f.attr)
             if h is not None:
+                # dynamic dispatch: another class of the module defining the same method may be the one that runs
+                if sum(1 for q_ in module.funcs if q_.rsplit(".", 1)[-1] == f.attr and q_.count(".") >= 1) > 1:
+                    return None
                 deco = _decorators(h)
                 kind = "staticmethod" if "staticmethod" in deco else "classmethod" if "classmethod" in deco else "method"
                 if kind == "method" and base in module.classes:
